@@ -21,6 +21,13 @@ QuickScenes ==
             sh \in {"chain", "fork"}, rv \in {Rv(1, 1), Rv(1, -1)}, rv2 \in {Rv(1, 1), Rv(-1, 1), Rv(1, -1)} }
   \cup { [Scene(sh, {"s0", "s1", "s2"}, Fx(FALSE, FALSE, FALSE, FALSE), Vol(1, 1, 1, 1), Rv(1, 1), TRUE) EXCEPT !.persistB = TRUE] :
             sh \in {"chain", "fork"} }
+\* scenes whose track B persists until its sound finishes (removal rules under dropped handles: parents wait for persisting children)
+PersistScenes ==
+  { [Scene(sh, {"s0", "s1", "s2"}, fx, vol, rv, TRUE) EXCEPT !.persistB = TRUE] :
+      sh \in {"chain", "fork"},
+      fx \in {Fx(FALSE, FALSE, FALSE, FALSE), Fx(FALSE, TRUE, FALSE, TRUE)},
+      vol \in {Vol(1, 1, 1, 1), Vol(1, 1, 1, 0)},
+      rv \in {Rv(1, 1), Rv(1, -1)} }
 ThoroughScenes ==
   { Scene(sh, snd, fx, vol, rv, TRUE) :
       sh \in {"chain", "fork"}, snd \in {{"s0", "s1", "s2"}, {"s1", "s2"}, {"s2"}},
